@@ -146,6 +146,10 @@ func (ctx *Context) applyAtRecursively(pos int) int {
 		}
 	}
 
+	// If the action budget is exhausted, discard the remaining actions, so
+	// that they cannot leak into later matches or later calls.
+	ctx.stack = ctx.stack[:0]
+
 	return next
 }
 
